@@ -6,19 +6,30 @@ RULE = ("cases cycle through the 8 connectors (binance, bybit, bitmex, coinbase,
         "a script that validates successfully (the expected confirmations in shuffled order, market payloads in between; Bitfinex: every confirmation "
         "followed by its snapshot) with 0-2 mutations (insert / delete / replace) and 0-2 items queued behind it; 45 % are free mixtures (length <= 10, "
         "thorough <= 14) of accepted / rejected responses in the venue's documented JSON shape (text or binary frames), undeserialisable payloads, "
-        "ping, pong, close frame, protocol-violating frame, silences of 3/6/9/12 s (sums never equal the 10 s timeout), the connectors' documented "
-        "success / failure example payloads; half of the cases end in a 12 s silence, the others in end of stream. Every run opens a loop-back "
+        "ping, pong, close frame, protocol-violating frame, silences of 3/6/9/12 s, the connectors' documented success / failure example payloads; "
+        "20 % of all cases get, at a random position, a silence that ends just before or just after the 10 s timeout (total 9 990-9 999 or "
+        "10 001-10 010 ms) given as 1-4 consecutive `wait`s of arbitrary lengths (zero included); half of the cases end in a 12 s silence, the "
+        "others in end of stream. No silence reaches 10 000 ms exactly at the end of a wait (the generator lengthens such a wait by 1 ms). "
+        "Every run opens a loop-back "
         "websocket (real `connect`, real tungstenite framing) and calls the real `<Exchange::SubValidator as SubscriptionValidator>::validate` under "
         "tokio's paused clock. Thorough additionally enumerates every item list of length <= 4 over 7 symbols for Kraken with two subscriptions "
         "(2 801 lists), of length <= 3 over 7 symbols for Bybit (400) and of length <= 4 over 9 symbols for Bitfinex with two subscriptions (7 381). "
+        "corpus/C13S/notable.ops (always run): silences of 9 999 / 10 001 ms split into 1-5 waits, two 9 999 ms silences around a frame, number "
+        "tokens at and beyond the u64 / u32 / u8 limits, a Bitfinex channel id announced twice, duplicate map keys. "
         "A case is distinct by the SHA-1 of its op lines and non-trivial when the implementation's trace shows at least two different observation blocks")
 ASSUMPTIONS = [
     "the input of a validation is the finite list of items the socket yields, silences included; the end of the list is the end of the stream "
     "(`websocket.next()` = None); serde deserialisation is exercised by the harness (real JSON through the real types) but not modelled: a frame "
     "is either a deserialised response (its validate-relevant fields) or an undeserialisable payload",
     "a transport error is followed by end of stream (tokio-tungstenite's stream is fused after an error); the validator itself ignores the error item",
-    "the timeout races are decided by the op list: silences are multiples of 3 s or 12 s, so no item arrives exactly when the 10 s sleep elapses "
-    "(`tokio::select!` picks at random between two ready branches)",
+    "the timeout races are decided by the op list: consecutive `wait`s are ONE silence (the harness sleeps until absolute deadlines measured from "
+    "the start of the silence, so n waits last exactly their sum and the silence is rounded to tokio's millisecond timer tick once, as the validator's "
+    "own `sleep(timeout)` armed at the same instant is; a relative sleep per `wait` would cost one extra tick each), and no generated silence reaches "
+    "10 000 ms exactly at the end of a wait, so no item arrives in the tick in which the 10 s sleep elapses (`tokio::select!` picks at random between "
+    "two ready branches)",
+    "number tokens of the ops outside the Rust integer type the harness reads them into (u64: Kraken channelID, payload ids, waits, instruments, "
+    "counts; u32: Bitfinex chanId and error code, Okx error code; u8: Gateio error code) are `bad-op` in the harness and in the Lean driver alike; "
+    "serde's own number handling beyond that is not modelled",
     "timeout semantics: the code re-arms `sleep(timeout)` on every loop iteration, i.e. it measures each silence; `Connector::subscription_timeout` "
     "is documented as the time the validator `will wait to receive all success responses` (one deadline). The theorems are about the code's reading and "
     "relate it to the other one (deadline_ok_is_code_ok, code_timeout_is_deadline_timeout, readings_agree_within_deadline); where the two readings "
@@ -27,9 +38,11 @@ ASSUMPTIONS = [
     "undeserialisable payload (as the code does), the spec driver as a failure response (as documented); the generator does not emit `docfail` for "
     "Gateio (concrete input in the report; `signature` labels it clause=documented_failure/gateio)",
     "Bitfinex: the instrument map has one entry per `channel|market` key (Map::from_iter guarantees it: ofList_wf) and a decimal channel id never "
-    "equals a `channel|market` string; the statement about the returned map's entries assumes the venue announces pairwise distinct channel ids for "
-    "the confirmed subscriptions (`distinctIds`; otherwise an entry is overwritten and the spec driver does not constrain `map`); `follow-up payload` "
-    "= any undeserialisable message after the first confirmation, as the code counts them",
+    "equals a `channel|market` string; the statement that the returned map contains EXACTLY the confirmed ids with their instruments assumes the "
+    "venue announces pairwise distinct channel ids for the confirmed subscriptions (`distinctIds`; otherwise an entry is overwritten - an instrument "
+    "is lost although the validation succeeds: bfx_shared_id_loses_instrument - and the spec driver does not constrain `map`); without that "
+    "assumption the theorems still give: no `channel|market` key left, every entry rightly filed (bfx_no_sub_key_left, bfx_map_within_rekeyed); "
+    "`follow-up payload` = any undeserialisable message after the first confirmation, as the code counts them",
     "usize counters are Nat (no overflow); payloads are identified by small numbers; instruments are numbers",
 ]
 SOURCE_FILES = [
@@ -59,20 +72,46 @@ TECHNIQUE = ("Lean 4: refinement of the counter-threading validation loops to a 
              "(invariant: the counters summarise the consumed history), relational characterisation of Ok / Err, map re-keying invariant for "
              "Bitfinex; correspondence of the models with the real validators over a loop-back websocket under a paused clock")
 LEVEL_TEXT = ("Proof (sub-check of C13). Lean theorems over models of WebSocketSubValidator::validate, the eight connectors' SubResponse validators and "
-              "BitfinexWebSocketSubValidator::validate (lean/BarterModel/Props/C13S.lean), for every input list, timeout and expected count: the loop "
-              "computes the history-based specification (run_refines_spec); Ok iff a prefix without anything fatal holds the expected number of accepted "
-              "responses, Err iff the stream ends or the next item is fatal before that (ok_iff, err_iff, ok_iff_enough_before_anything_fatal); a "
-              "successful validation stops right after the k-th confirmation and leaves the rest of the socket untouched (ok_stops_at_kth_confirmation, "
-              "unread_untouched); every payload after the first confirmation is either buffered or still unread, in order (no_event_lost); rejected "
-              "responses, close frames, transport errors and end of stream are reported as such and finally (rejection_is_reported, close_is_reported, "
-              "error_is_final); pings only re-arm the timer (pings_invisible); a timeout needs a silence of the full duration (timeout_only_after_silence) "
-              "and the per-silence reading of the code is related to the documented one-deadline reading (readings_agree_within_deadline, "
-              "deadline_ok_is_code_ok, code_timeout_is_deadline_timeout); per connector the accepted responses are tabulated (…_accepts_iff, "
-              "documented_success_accepted, documented_failure_rejected, expected_responses_table); for Bitfinex the loop refines its specification and the "
-              "returned map contains exactly the confirmed channel ids mapped to the instruments subscribed under the confirmed symbols, with no "
-              "channel|market key left (bfx_ok_iff, bfx_err_iff, bfx_refines_spec, bfx_map_is_rekeyed). The models are tied to the code by driving the "
-              "real validators through a loop-back websocket on every run.")
-LEVEL_NOTE = ("Trusted: Lean kernel; axioms propext/Classical.choice/Quot.sound only; the hand-written models (tied by sampled correspondence: 800 quick / "
-              "16 000 random + 10 582 exhaustive small-scope lists thorough); the harness' own websocket server side and the paused clock. Serde "
-              "deserialisation is exercised, not modelled.")
+              "BitfinexWebSocketSubValidator::validate (lean/BarterModel/Props/C13S.lean). "
+              "GENERIC VALIDATOR, for every input list, timeout T and expected count k, no further hypothesis: the loop computes the history-based "
+              "specification (run_refines_spec); Ok iff a prefix without anything fatal holds k accepted responses, Err iff the stream ends or the next "
+              "item is fatal before that (ok_iff, err_iff, ok_iff_enough_before_anything_fatal); the outcome depends only on what is consumed "
+              "(unread_untouched); an error other than `ended` stays whatever follows (error_is_final); a timeout needs a silence of the full duration "
+              "(timeout_only_after_silence); a success under the one-deadline reading of subscription_timeout is the same success of the code and a "
+              "timeout of the code is a timeout under that reading, not conversely (deadline_ok_is_code_ok, code_timeout_is_deadline_timeout). With "
+              "k > 0: a successful validation stops right after the k-th confirmation, and every payload after the first confirmation is buffered or "
+              "still unread, in order (ok_stops_at_kth_confirmation, no_event_lost). For a history consumed without anything fatal that is not yet "
+              "complete (`Proceeds`, count != k): the next rejected response / close frame / transport error / end of stream is reported as such "
+              "(rejection_is_reported, close_is_reported). Only on inputs WITHOUT silences (`NoWaits`): deleting pings and pongs changes nothing "
+              "(pings_invisible); with silences a ping is visible - every item that is not a silence restarts the timer "
+              "(silence_restarts_at_every_item, for every history; witness ping_rearms_timer: two 9 s silences validate with a ping in between and "
+              "time out without it). If what the code CONSUMED lasts less than T in total, a success of the code is the same success under the "
+              "one-deadline reading (code_ok_within_deadline_is_deadline_ok); if the WHOLE input, unread tail included, lasts less than T, the two "
+              "readings agree on every outcome (readings_agree_within_deadline). "
+              "BITFINEX, for an instrument map with one entry per key (`KeysNodup`; `WF` adds that all keys are channel|market keys; Map::from_iter "
+              "over such keys gives both: ofList_wf): Ok / Err characterised as above with `complete` = every subscription confirmed and as many "
+              "follow-up payloads as subscriptions (bfx_ok_iff, bfx_err_iff); same verdict, buffer and unread input as the specification, returned "
+              "map without duplicate keys (bfx_refines_spec, WF); after a successful validation, whatever channel ids the venue announced, no "
+              "channel|market key is left and every entry is a confirmed channel id carrying an instrument that was subscribed under a key whose first "
+              "confirmation announced that id (bfx_no_sub_key_left, bfx_map_within_rekeyed); ONLY IF the venue announced pairwise distinct ids for the "
+              "confirmed subscriptions (`distinctIds`) does the map contain exactly these entries (bfx_map_is_rekeyed, entry clause of "
+              "bfx_refines_spec) - otherwise an instrument is lost although the result is Ok (witness bfx_shared_id_loses_instrument); "
+              "bfx_code_timeout_is_deadline_timeout. INSTRUMENT MAP: Map::from_iter files under a key the instrument of the last entry given for it "
+              "(ofList_get_is_last_entry, ofList_mem_iff_last_entry). "
+              "Definitional / bookkeeping, not results: proceeds_iff, nothing_expected, empty_map, before_first_confirmation_dropped, and the "
+              "tabulations of the models' own case tables (binance/bybit/bitmex/coinbase/gateio/kraken/okx/bitfinex_accepts_iff, "
+              "bybit_pong_out_of_sequence, rejection_kinds, documented_success_accepted, documented_failure_rejected, expected_responses_table). "
+              "The models are tied to the code by driving the real validators through a loop-back websocket on every run.")
+LEVEL_NOTE = ("Trusted: Lean kernel; axioms propext/Classical.choice/Quot.sound only; the hand-written models (tied by sampled correspondence: corpus + "
+              "800 quick / 16 000 random + 10 582 exhaustive small-scope lists thorough); the harness' own websocket server side and the paused clock. "
+              "Serde deserialisation is exercised, not modelled. "
+              "What the oracle (spec mode) adds over the correspondence, key by key: `res`, `buf`, `consumed` come from the history-based `spec` / "
+              "`specBfx`, whose judgement of a SINGLE item (what is fatal, payloads before the first confirmation are dropped, a transport error ends "
+              "the stream, Bitfinex counts follow-up payloads with `==`) is the model's own case table, tied to the code by correspondence and to the "
+              "loop by run_refines_spec / bfx_refines_spec, not written from an independent source; independently formulated are (i) the Bitfinex `map` "
+              "= `rekey` of the `init` entries by the first confirmations (vs the loop's erase/insert; printed only under `distinctIds`), (ii) the generic "
+              "validators' `map` = last entry per key of the `init` op (`specMap`, no hash-map model), (iii) Gateio's documented failure payload read as "
+              "the failure response the documentation says it is (`docfail`; the code and the model time out there: clause=documented_failure/gateio, "
+              "not generated), (iv) the widening `res {ok|err:timeout}` where the one-deadline reading of subscription_timeout differs from the code's. "
+              "`expected` and `timeout` are copies of the code's tables in the model: CORRESPONDENCE-ONLY (impl vs model), not printed in spec mode.")
 ENV_PROBE = ["probe-env"]
